@@ -652,6 +652,10 @@ func vStoreShards(mode, tier string) []vShard {
 		}
 	}
 	if mode == "c08" {
+		for _, mem := range []int{2, 0} {
+			mem := mem
+			sh = append(sh, vShard{Name: fmt.Sprintf("%s/builders/mem=%d", mode, mem), Run: func(c *vCtx) { vStoreBuilderShard(c, mem, 3) }})
+		}
 		// deep-narrow: few operations (add, flush, search, explicit eviction, a long idle
 		// period followed by the tickers), longer histories
 		for _, cfg := range []vStoreCfg{{Mem: 2, Thr: 0, Comp: 3, Tmpl: "vtm", Vec: "flat"}, {Mem: 0, Thr: 1, Comp: 2, Tmpl: "v", Vec: "flat"}} {
